@@ -28,6 +28,7 @@ class Scenario:
         self.jobs = {}
         self.cfgs = {}
         self.next_id = 0
+        self.p_force = 0.15
         self.inv_log = []          # (id, thread) callback starts
         self.running = {}          # id -> count of concurrently running callbacks
         self.max_running = 0
@@ -199,7 +200,7 @@ class Scenario:
         r = self.r
         k = r.random()
         if k < 0.35 and allow_exec:
-            return ("EXEC", r.random() < 0.15)
+            return ("EXEC", r.random() < self.p_force)
         if k < 0.5:
             return ("SCHED", self.gen_cfg())
         if k < 0.58:
@@ -386,6 +387,12 @@ def oracles(sc, ctl, deadlock, prof):
             if later:
                 bad("C16", "callbacks %s were still running after exec_jobs returned" % later)
             m = sc.n_threads if sc.n_threads else max(1, len(batch))
+            spawned = len([1 for th, k, d in seg if k == "spawn" and th == rec["thread"]])
+            if batch and sc.n_threads == 0 and spawned < len(batch):
+                bad("C16", "n_threads=0: only %d workers for a batch of %d (the callbacks cannot all run at the same time)"
+                    % (spawned, len(batch)))
+            if batch and sc.n_threads > 0 and spawned > sc.n_threads:
+                bad("C16", "n_threads=%d but %d workers were started" % (sc.n_threads, spawned))
             if sc.max_running > m:
                 bad("C16", "%d callbacks ran at the same time with n_threads=%d" % (sc.max_running, sc.n_threads))
     if sc.overlap_self:
